@@ -160,7 +160,7 @@ func main() {
 					pyJSON, havePy = presp["json"].(string)
 				}
 			}
-			pyCanon := ""
+			pyCanon, pyDiffers := "", false
 			if havePy {
 				got, err := canonLenient(c.Schema, pyJSON)
 				switch {
@@ -169,7 +169,7 @@ func main() {
 					outcome = "py-not-json"
 					havePy = false
 				case got != want:
-					fail(c, "python-roundtrip-differs", diffClass(want, got), doc, fmt.Sprintf("Python from_json→to_json gives %s, which is not JSON-equal to the document", pyJSON))
+					pyDiffers = true
 					outcome = "py-differs"
 					pyCanon = got
 				default:
@@ -181,6 +181,7 @@ func main() {
 				}
 			}
 			// ---- Go, same document, same run ----
+			goText := "(not available: the Go package does not compile)"
 			if !goOK {
 				bump("py-vs-go blocked_by=C02 (docs)")
 			} else {
@@ -197,6 +198,7 @@ func main() {
 				}
 				switch {
 				case !goGood:
+					goText = "(not compared: Go itself fails C01 on this document)"
 					bump("py-vs-go blocked_by=C01 (docs)")
 					if havePy && goCanon != "" && goCanon == pyCanon && pyCanon != want {
 						bump("python-and-go-deviate-identically (docs)")
@@ -205,11 +207,23 @@ func main() {
 					bump("py-vs-go not-compared: python produced nothing (docs)")
 				default:
 					bump("py-vs-go compared (docs)")
-					if pyCanon != goCanon {
-						fail(c, "python-vs-go-differs", diffClass(goCanon, pyCanon), doc, fmt.Sprintf("for the same document Go writes %s and Python writes %s", gresp["reencoded"], pyJSON))
+					goText = fmt.Sprint(gresp["reencoded"])
+					switch {
+					case pyCanon == goCanon:
+					case pyDiffers:
+						// Go reproduces the document and Python does not: one
+						// deviation, reported once under the round-trip clause
+						// (with Go's text in the description).
+						bump("python-vs-go-differs implied by python-roundtrip-differs (docs)")
+						outcome += "+vs-go-differs"
+					default:
+						fail(c, "python-vs-go-differs", diffClass(c.Schema, goText, pyJSON), doc, fmt.Sprintf("for the same document Go writes %s and Python writes %s", goText, pyJSON))
 						outcome += "+vs-go-differs"
 					}
 				}
+			}
+			if pyDiffers {
+				fail(c, "python-roundtrip-differs", diffClass(c.Schema, doc, pyJSON), doc, fmt.Sprintf("Python from_json→to_json gives %s, which is not JSON-equal to the document; Go writes %s", pyJSON, goText))
 			}
 			distinctOutcomes[outcome] = true
 			if outcome == "ok" {
